@@ -276,10 +276,177 @@ pub fn batch(out: &str, tier: &str, seed: u64) -> Value {
            "distinct_nontrivial": nontrivial.len(), "bad_runs": bad_runs, "samples": b.samples})
 }
 
+// ------------------------------------------------------------------------------------------------
+// Family `mailbox-hybrid`: the REAL processing loop (free running on its own runtime) against a sender that is a
+// controlled OS thread, parked between admission and enqueue while drain() is called and the actor finishes the
+// message it was handling. Engine H alone has a scripted consumer, engine T alone cannot split a send: this scripted
+// sequence is the one place where the real loop's exit condition meets a half-finished send. Nothing is timing
+// dependent on a correct tree (the actor has nothing to do until the sender enqueues); on a tree whose loop leaves
+// early, the 30 ms grace lets it do so.
+// ------------------------------------------------------------------------------------------------
+struct HSink {
+    in_m1: Arc<std::sync::atomic::AtomicBool>,
+    release_m1: Arc<std::sync::atomic::AtomicBool>,
+    release_ps: Arc<std::sync::atomic::AtomicBool>,
+}
+#[cfg_attr(feature = "asynctrait", ractor::async_trait)]
+impl Actor for HSink {
+    type Msg = SinkMsg;
+    type State = ();
+    type Arguments = ();
+    async fn pre_start(&self, _: ActorRef<SinkMsg>, _: ()) -> Result<(), ActorProcessingErr> {
+        Ok(())
+    }
+    async fn handle(&self, _: ActorRef<SinkMsg>, m: SinkMsg, _: &mut ()) -> Result<(), ActorProcessingErr> {
+        use std::sync::atomic::Ordering::SeqCst;
+        let (s, k) = match m {
+            SinkMsg::Push(s, k) => (s, k),
+            SinkMsg::Ask(s, k, _) => (s, k),
+        };
+        verif::emit_kv("obs.consume", 0, 0, vec![kvs("kind", "msg"), kvs("s", &format!("s{s}")), kvi("k", k as i64)]);
+        if s == 2 {
+            // the message the actor is busy with while the other sender is in flight
+            self.in_m1.store(true, SeqCst);
+            while !self.release_m1.load(SeqCst) {
+                tokio::time::sleep(std::time::Duration::from_millis(1)).await;
+            }
+        }
+        Ok(())
+    }
+    async fn post_stop(&self, _: ActorRef<SinkMsg>, _: &mut ()) -> Result<(), ActorProcessingErr> {
+        use std::sync::atomic::Ordering::SeqCst;
+        verif::emit_kv("obs.consume", 0, 0, vec![kvs("kind", "drain"), kvs("s", ""), kvi("k", 0)]);
+        // the ports stay alive until the driver lets post_stop return
+        while !self.release_ps.load(SeqCst) {
+            tokio::time::sleep(std::time::Duration::from_millis(1)).await;
+        }
+        Ok(())
+    }
+}
+
+/// `busy`: the actor is inside a handler when the drain arrives (otherwise it is idle in its select);
+/// `cast`: the in-flight send is a cast (otherwise send_message)
+pub fn hybrid_run(busy: bool, cast: bool) -> (Vec<Value>, Value, bool) {
+    use ractor::verif::TState;
+    use std::sync::atomic::{AtomicBool, Ordering::SeqCst};
+    verif::reset_threads();
+    verif::sched_enable(false);
+    verif::enable(true);
+    let _ = verif::take_events();
+    let rt = tokio::runtime::Builder::new_multi_thread().worker_threads(1).enable_all().build().expect("rt");
+    let (in_m1, release_m1, release_ps) = (Arc::new(AtomicBool::new(false)), Arc::new(AtomicBool::new(false)), Arc::new(AtomicBool::new(false)));
+    let sink = HSink { in_m1: in_m1.clone(), release_m1: release_m1.clone(), release_ps: release_ps.clone() };
+    let Ok((actor, handle)) = rt.block_on(Actor::spawn(None, sink, ())) else {
+        return (vec![], json!({"family": "mailbox-hybrid", "error": "spawn"}), true);
+    };
+    let wait_for = |f: &dyn Fn() -> bool, ms: u64| {
+        let t0 = std::time::Instant::now();
+        while !f() && t0.elapsed() < std::time::Duration::from_millis(ms) {
+            std::thread::sleep(std::time::Duration::from_millis(1));
+        }
+        f()
+    };
+    let mut bad = false;
+    if busy {
+        verif::name_thread(2);
+        verif::emit_kv("obs.send_begin", 0, 0, vec![kvi("k", 1)]);
+        let ok = actor.send_message(SinkMsg::Push(2, 1)).is_ok();
+        verif::emit_kv("obs.send_ret", 0, i64::from(ok), vec![kvi("k", 1)]);
+        bad |= !wait_for(&|| in_m1.load(SeqCst), 5000);
+    }
+    // the controlled sender: released point by point until it sits right after its admission
+    let a2 = actor.clone();
+    let th = verif::spawn_controlled(1, move || {
+        verif::emit_kv("obs.send_begin", 0, 0, vec![kvi("k", 1)]);
+        let ok = if cast { a2.cast(SinkMsg::Push(1, 1)).is_ok() } else { a2.send_message(SinkMsg::Push(1, 1)).is_ok() };
+        verif::emit_kv("obs.send_ret", 0, i64::from(ok), vec![kvi("k", 1)]);
+    });
+    let mut st = verif::settle(1);
+    let mut parked_after_admission = false;
+    for _ in 0..50 {
+        match &st {
+            TState::AtPoint(l, _, d) if l == "send.admit" && *d == 1 => {
+                parked_after_admission = true;
+                break;
+            }
+            TState::AtPoint(..) => st = verif::step(1),
+            _ => break,
+        }
+    }
+    bad |= !parked_after_admission;
+    verif::name_thread(3);
+    verif::emit("obs.drain_begin", 0, 0);
+    let _ = actor.drain();
+    verif::emit("obs.drain_ret", 0, 0);
+    // the actor finishes what it was doing; it has nothing else to do until the in-flight sender enqueues
+    release_m1.store(true, SeqCst);
+    std::thread::sleep(std::time::Duration::from_millis(30));
+    // the in-flight sender completes: enqueue, release (which publishes the deferred marker), return
+    for _ in 0..50 {
+        match verif::step(1) {
+            TState::Done | TState::Blocked => break,
+            _ => {}
+        }
+    }
+    let _ = th.join();
+    std::thread::sleep(std::time::Duration::from_millis(10));
+    release_ps.store(true, SeqCst);
+    let stopped = rt.block_on(async { tokio::time::timeout(std::time::Duration::from_secs(20), handle).await.is_ok() });
+    bad |= !stopped;
+    let cell = actor.get_cell();
+    let w = verif::admission_word(&cell);
+    let closed = (w >> (usize::BITS - 1)) & 1;
+    let marker = (w >> (usize::BITS - 2)) & 1;
+    let cnt = w & ((1usize << (usize::BITS - 2)) - 1);
+    let stt = cell.get_status() as i64;
+    let raw = verif::take_events();
+    drop(rt);
+    let mut evs: Vec<Value> = vec![];
+    let names = Names::default();
+    for e in raw.iter().filter(|e| e.a.starts_with("obs.")) {
+        let mut j = ev_json(e, &names);
+        let who = match (e.a.as_str(), e.who.as_str()) {
+            ("obs.consume", _) => "c",
+            (_, "t1") => "s1",
+            (_, "t2") => "s2",
+            (_, "t3") => "d1",
+            _ => continue,
+        };
+        j.as_object_mut().unwrap().insert("who".into(), json!(who));
+        evs.push(j);
+    }
+    evs.push(json!({"a": "obs.end", "who": "drv", "obj": "", "d": 0, "t": 0, "cnt": cnt, "closed": closed, "marker": marker, "status": stt,
+                    "rxclosed": i64::from(stt == 6), "q": []}));
+    let meta = json!({"family": "mailbox-hybrid", "shape": format!("busy={busy} cast={cast}"), "sched": [], "steps": 0, "quiescent": stopped,
+                      "parked_after_admission": parked_after_admission});
+    (evs, meta, bad)
+}
+
+pub fn hybrid_batch(out: &str, tier: &str) -> Value {
+    let mut b = Batch::new(Some(out));
+    let reps = if tier == "thorough" { 10 } else { 3 };
+    let mut bad_runs = 0u64;
+    for _ in 0..reps {
+        for (busy, cast) in [(true, false), (true, true), (false, false), (false, true)] {
+            let (evs, meta, bad) = hybrid_run(busy, cast);
+            bad_runs += u64::from(bad);
+            // a run in which the sender could not be parked right after its admission did not follow the script: it says
+            // nothing (counted as bad, not validated)
+            let scripted = meta.get("parked_after_admission").and_then(|x| x.as_bool()) == Some(true);
+            if !evs.is_empty() && scripted {
+                b.run(meta, &evs);
+            }
+        }
+    }
+    b.finish();
+    json!({"family": "mailbox-hybrid", "runs": b.runs, "events": b.events, "distinct": b.hashes.len(), "bad_runs": bad_runs, "samples": b.samples})
+}
+
 pub fn dispatch(cmd: &str, a: &std::collections::HashMap<String, String>) -> Option<Value> {
     let (out, tier, seed) = crate::common(a);
     match cmd {
         "mailbox-t" => Some(batch(&out, &tier, seed)),
+        "mailbox-hybrid" => Some(hybrid_batch(&out, &tier)),
         "mailbox-t-replay" => {
             let gen: Value = serde_json::from_str(a.get("gen").map(|s| s.as_str()).unwrap_or("{}")).unwrap_or(json!({}));
             let sched: Vec<usize> = serde_json::from_str(a.get("sched").map(|s| s.as_str()).unwrap_or("[]")).unwrap_or_default();
